@@ -29,6 +29,9 @@ pub const PLACEMENTS: &[Option<&str>] = &[
     Some("d/x.js.ts"),
     // a second spelling of `s.ts`: two types can share a file under different `export_to` strings
     Some("d/../s.ts"),
+    // a file whose extension is not `.ts` (no specifier names it under the property's reading; the
+    // same-file rules still apply when two types share it)
+    Some("s.mts"),
 ];
 
 pub fn loc_of(name: &str, placement: Option<&str>) -> String {
@@ -100,8 +103,8 @@ pub fn run(args: &[String]) {
     // (only the placements of types reachable from a root make a case, see `seen_locs` below)
     let keys: Vec<(&str, Vec<Option<&'static str>>)> = if thorough {
         vec![
-            ("A", p(&[0, 1, 2, 3, 4, 5, 6, 7])),
-            ("B", p(&[0, 1, 2, 3, 4, 5, 6, 7])),
+            ("A", p(&[0, 1, 2, 3, 4, 5, 6, 7, 8])),
+            ("B", p(&[0, 1, 2, 3, 4, 5, 6, 7, 8])),
             ("C", p(&[0, 1, 2, 3, 4, 5, 6, 7])),
             ("B2", p(&[0, 1, 2, 3, 4, 6])),
             ("G", p(&[0, 3, 2, 4])),
@@ -110,8 +113,8 @@ pub fn run(args: &[String]) {
         ]
     } else {
         vec![
-            ("A", p(&[0, 1, 2, 3, 4, 5, 6, 7])),
-            ("B", p(&[0, 1, 2, 3, 4, 5, 6, 7])),
+            ("A", p(&[0, 1, 2, 3, 4, 5, 6, 7, 8])),
+            ("B", p(&[0, 1, 2, 3, 4, 5, 6, 7, 8])),
             ("C", p(&[0, 1, 2, 3, 4])),
             ("B2", p(&[0, 2, 4, 6])),
             ("G", p(&[0, 3, 2])),
@@ -382,6 +385,18 @@ fn one_case(
             }
             if !errs.is_empty() {
                 rep.violation(cls("C08", "specifier-syntax"), det(json!({"file": rel(p), "spec": i.spec, "problems": errs})));
+                continue;
+            }
+            // a dependency in a file without `.ts` extension has no correct specifier: only the
+            // same-file rule is checked for it (literally: the specifier names the importer's own file)
+            if i.names.iter().any(|n| locs.get(n).map_or(false, |l| !l.ends_with(".ts"))) {
+                let own = Path::new(p).file_name().unwrap().to_string_lossy().into_owned();
+                let last = i.spec.rsplit('/').next().unwrap_or("");
+                let own_dir = i.spec.starts_with("./") && i.spec.matches('/').count() == 1;
+                if own_dir && (last == own || Some(last) == own.rsplit_once('.').map(|x| x.0)) {
+                    rep.violation(cls("C03", "file-imports-from-itself"), det(json!({"file": rel(p), "spec": i.spec, "text": text})));
+                }
+                rep.count("imports_of_files_without_ts_extension_not_resolved", 1);
                 continue;
             }
             match resolve_spec(p, &i.spec, esm) {
